@@ -298,12 +298,14 @@ func (g *Registry) RoundTrip(req *http.Request) (*http.Response, error) {
 	if len(rs) == 1 {
 		h := http.Header{}
 		h.Set("Content-Range", fmt.Sprintf("bytes %d-%d/%d", rs[0][0], rs[0][1], size))
+		h.Set("Content-Type", "application/octet-stream")
 		body := content[rs[0][0] : rs[0][1]+1]
 		h.Set("Content-Length", strconv.Itoa(len(body)))
 		return resp(req, 206, h, body), nil
 	}
 	var buf bytes.Buffer
 	mw := multipart.NewWriter(&buf)
+	mw.SetBoundary("memregboundary7d1f")
 	for i, x := range rs {
 		ph := textproto.MIMEHeader{}
 		ph.Set("Content-Range", fmt.Sprintf("bytes %d-%d/%d", x[0], x[1], size))
